@@ -209,20 +209,24 @@ func reportPanic(st *stream, arr [][2]int, ops []op, pi *panicInfo) {
 		fmt.Sprintf("%s Decode panics on a faulted valid stream at call %d: %s", st.f.Name, pi.call, pi.val), w)
 }
 
-// baselineKey names a frame that is not even returned intact from the unfaulted stream.
+// baselineKey names a frame that is not even returned intact from the unfaulted stream (an encoder /
+// round-trip defect, C03's subject). AV1's D1 is recognised from the size arithmetic; everything
+// else is keyed by the parameter set (grammar variant) of the codec adapter that exposes it.
 func baselineKey(st *stream, v verdict) (string, string) {
-	switch {
-	case st.f.Name == "rtpav1" && av1EmptyFragment(st.spec.Max, st.actualSizes(v.frame)):
+	if st.f.Name == "rtpav1" && av1EmptyFragment(st.spec.Max, st.actualSizes(v.frame)) {
 		return "rtpav1/claimable-frame-" + v.class + "/encoder-empty-fragment",
 			"AV1: the encoder closes a packet with the continuation flag although no fragment was written (D1); the decoder merges two OBUs"
-	case st.f.Name == "rtpmpeg1audio" && st.p.Variant == "lsf3":
-		return "rtpmpeg1audio/claimable-frame-" + v.class + "/mpeg2-layer3-frame-length",
-			"MPEG-2 layer III audio: the decoder derives the frame length as 144*bitrate/rate, twice the real 72*bitrate/rate"
-	case st.f.Name == "rtpklv" && st.p.Variant == "multi" && st.npk[v.frame] > 1:
-		return "rtpklv/claimable-frame-" + v.class + "/multi-item-unit-cut-at-first-item",
-			"KLV: a KLVunit of several items spanning several packets is returned as soon as the first item's length is reached"
 	}
-	return st.f.Name + "/claimable-frame-" + v.class + "/no-fault", st.f.Name + ": frame not returned intact from the unfaulted stream"
+	what := st.f.Name + " [" + st.p.Label + "]: frame not returned intact from the unfaulted stream"
+	switch {
+	case st.f.Name == "rtpmpeg1audio" && st.p.Variant == "lsf3":
+		what = "MPEG-2 layer III audio: the decoder derives the frame length as 144*bitrate/rate, twice the real 72*bitrate/rate"
+	case st.f.Name == "rtpklv" && st.p.Variant == "multi":
+		what = "KLV: a KLVunit of several items spanning several packets is returned as soon as the first item's length is reached"
+	case st.f.Name == "rtpmjpeg" && st.p.Variant == "dri":
+		what = "M-JPEG with a restart interval: the encoder sends RFC 2435 types 64..127, which the decoder rejects"
+	}
+	return st.f.Name + "/claimable-frame-" + v.class + "/no-fault/" + st.p.Label, what
 }
 
 func reportBaseline(st *stream) func(v verdict, pi *panicInfo) {
